@@ -6,8 +6,8 @@ PROP = dict(
     level="model_checking",
     technique="TLA+ spec Deterministic.tla (Keep(h,N) == N<=1 \\/ h <= H div N; per-instance rate/bound state, Configure/Decide) model-checked by TLC; every generated transition replayed into real DeterministicSampler and StressRelief objects on trace IDs chosen by an independent hash computation so that they fall into the same threshold bucket as the model's h (B3 function vectors + transition tour); seeded ID stream for the 1/N clause",
     design_ref="DESIGN.md §5 C10",
-    level_text="TLC checks on the model, exhaustively over the hash space and all rates up to the bound (0..255 x 0..300 in the thorough tier), that keep is exactly the threshold rule, that rates <= 1 keep everything, that decisions are nested in the rate, that instances agree, that asking is pure, and that the kept part of the hash space has floor(H/N)+1 values (so the kept share is within 2/(H+1) of 1/N). The code is bound to the model: for every generated transition (two instances independently (re)configured over a rate table, then asked) the real sample.DeterministicSampler and collect.StressRelief must return the model's (rate, keep) for a real trace ID whose independently computed hash (stdlib sha1 of ID+salt / wyhash with the fixed seed) lies in the threshold bucket MaxUint div N' corresponding to the model's; IDs nearest to each real threshold are used for the bucket edges. A seeded stream of 2*10^5 (quick) / 2*10^6 (thorough) IDs x 9 rates (incl. 2^31-1, 2^31 / 2^63, 2^64-1) checks exact agreement with Keep(hash,N), nesting, two instances, and the kept fraction within 6 sigma of 1/N.",
-    level_note="The universally quantified arithmetic is decided on a scaled-down hash space (H<=255, N<=300), not on 2^32/2^64; the code is tied to the same formula only on sampled trace IDs (about 40-90 concretised IDs in the walks, 2*10^5..2*10^6 in the stream), so a defect confined to a hash value that no sampled ID has (e.g. `<` instead of `<=` exactly at the threshold) is not observable. The independent hash re-implements the construction read from the code (salt, seed, byte order); the vendored wyhash package is trusted. Oracle of the gotest stages: Keep(hash, N) from Deterministic.tla with H = MaxUint32 / MaxUint64 and a 6-sigma binomial band.",
+    level_text="TLC checks on the model, exhaustively over the hash space and all rates up to the bound (0..255 x 0..300 in the thorough tier), that keep is exactly the threshold rule, that rates <= 1 keep everything, that decisions are nested in the rate, that instances agree, that asking is pure, and that the kept part of the hash space has floor(H/N)+1 values (so the kept share is within 2/(H+1) of 1/N). The code is bound to the model: for every generated transition (two instances independently (re)configured over a rate table - for stress relief each reload carries a whole configuration record: the rate plus a profile of Mode/ActivationLevel/DeactivationLevel/MinimumActivationDuration incl. equal, zero and inverted levels -, then asked; a record an implementation may refuse as a whole must leave reported rate and threshold a consistent pair) the real sample.DeterministicSampler and collect.StressRelief must return the model's (rate, keep) for a real trace ID whose independently computed hash (stdlib sha1 of ID+salt / wyhash with the fixed seed) lies in the threshold bucket MaxUint div N' corresponding to the model's; IDs nearest to each real threshold are used for the bucket edges. A seeded stream of 2*10^5 (quick) / 2*10^6 (thorough) IDs x 9 rates (incl. 2^31-1, 2^31 / 2^63, 2^64-1) checks exact agreement with Keep(hash,N), nesting, two instances, and the kept fraction within 6 sigma of 1/N.",
+    level_note="Profiles of the other configuration fields are a fixed small catalogue (3 in quick, 5 in thorough). The universally quantified arithmetic is decided on a scaled-down hash space (H<=255, N<=300), not on 2^32/2^64; the code is tied to the same formula only on sampled trace IDs (about 40-90 concretised IDs in the walks, 2*10^5..2*10^6 in the stream), so a defect confined to a hash value that no sampled ID has (e.g. `<` instead of `<=` exactly at the threshold) is not observable. The independent hash re-implements the construction read from the code (salt, seed, byte order); the vendored wyhash package is trusted. Oracle of the gotest stages: Keep(hash, N) from Deterministic.tla with H = MaxUint32 / MaxUint64 and a 6-sigma binomial band.",
     assumptions=["crypto/sha1 and the vendored go-wyhash are correct", "rates within the property's quantifier (sampler 1..2^31, stress relief 0..2^64-1)",
                  "model hash space 0..15/0..31 for the walks, 0..63/0..255 for the arithmetic lemmas"],
     stages=[
